@@ -2,7 +2,7 @@
 # quick evaluation of seeded changes: tools/qseed.sh <seed-id> [PROP]  (scratch copy, patch, tagged check quick; no demo / suite)
 id="$1"; prop="${2:-$(python3 -c "import json;print(json.load(open('/verif/seeded/$id/meta.json'))['property'])")}"
 d=$(mktemp -d /tmp/qseed-XXXXXX)
-cp -r /repo/Geometry3D "$d/"; (cd "$d" && patch -p1 -s < /verif/seeded/$id/patch.diff) || { echo "patch failed"; rm -rf "$d"; exit 2; }
+cp -r /repo/Geometry3D /repo/docs "$d/" 2>/dev/null; (cd "$d" && patch -p1 -s < /verif/seeded/$id/patch.diff) || { echo "patch failed"; rm -rf "$d"; exit 2; }
 VERIF_REPO="$d" VERIF_OUT="$d/.out" /verif/check "$prop" --tier quick > "$d/log" 2>&1; rc=$?
 echo "$id $prop rc=$rc $(grep -c ^VIOLATION "$d/log") violations; $(grep ^VIOLATION "$d/log" | sed 's/.*key=//' | cut -c1-90 | head -3 | tr '\n' ';')"
 tail -1 "$d/log" | cut -c1-160
